@@ -394,3 +394,43 @@ fn c10d_accept_implies_checksum_matches() {
     }
     std::mem::forget((a, r));
 }
+
+// ---------------------------------------------------------------- C02.d stored size / first offset, writer only
+#[path = "../ref/mpq_spec.rs"]
+mod spec;
+fn rd32(b: &[u8], o: usize) -> u32 { u32::from_le_bytes([b[o], b[o + 1], b[o + 2], b[o + 3]]) }
+
+fn ms_stored_size(encrypt: bool, fix_key: bool) {
+    let t = spec::crypt_table();
+    let mut data = [0x11u8; 513];
+    let tail: [u8; 5] = kani::any();
+    data[508..513].copy_from_slice(&tail);
+    unsafe { CODEC_SHRINKS = true; CODEC_PAYLOAD = kani::any(); ORIG_N = 0; }
+    let b = ArchiveBuilder::new();
+    let mut out: Vec<u8> = Vec::with_capacity(memfile::IMG_CAP);
+    let params = FileWriteParams { file_data: &data, archive_name: "f", compression: 2, encrypt, use_fix_key: fix_key, sector_size: 512, file_pos: 32 };
+    let r = b.write_file(&mut out, &params);
+    assert!(r.is_ok());
+    let (stored, flags) = r.unwrap();
+    kani::cover!(flags & BlockEntry::FLAG_COMPRESS != 0);
+    assert!(stored == out.len(), "stored size declared for the block table differs from the bytes written");
+    let key = if encrypt { spec::file_key(&t, b"f", 32, 513, flags) } else { 0 };
+    let mut offs = [rd32(&out, 0), rd32(&out, 4), rd32(&out, 8)];
+    if encrypt {
+        spec::decrypt(&t, &mut offs, key.wrapping_sub(1));
+    }
+    assert!(offs[0] == 12 && offs[2] as usize == stored, "sector offset table (under the format's key-1) does not start behind itself / end at the stored size");
+    std::mem::forget((b, out));
+}
+macro_rules! ms_stored_harness {
+    ($name:ident, $enc:expr, $fix:expr) => {
+        #[kani::proof]
+        #[kani::unwind(260)]
+        #[kani::stub(std::fmt::format, vio::fmt_stub)]
+        #[kani::stub(crate::compression::compress::compress, compress_stub)]
+        fn $name() { ms_stored_size($enc, $fix) }
+    };
+}
+ms_stored_harness!(c02d_ms_stored_size_codec, false, false);
+ms_stored_harness!(c02d_ms_stored_size_enc_codec, true, false);
+ms_stored_harness!(c02d_ms_stored_size_enc_fix_codec, true, true);
